@@ -4,7 +4,7 @@ from . import runner, gen, replay as rp
 from .props import PROPS
 
 ROOT = gen.ROOT
-EVID = os.path.join(ROOT, "evidence")
+EVID = os.environ.get("VERIF_EVIDENCE_DIR") or os.path.join(ROOT, "evidence")
 OUT = os.path.join(ROOT, "out")
 
 
